@@ -225,7 +225,7 @@ class SdrCommon(object):
         self.entity_instance = buffer.pop_unsigned_int(1)
 
     def _device_id_string(self, buffer):
-        self.device_id_string_type = (buffer[0] & 0xc0) >> 4
+        self.device_id_string_type = (buffer[0] & 0xc0) >> 6
         self.device_id_string_length = buffer[0] & 0x3f
         field = SdrTypeLengthString(data=buffer[0:1+self.device_id_string_length])
         self.device_id_string = field.string
